@@ -70,6 +70,15 @@ def configs(tier):
                     if aa and (draw or method == "bregman_adaptive"):
                         continue
                     out.append(dict(kind="stopping", shape=shape, method=method, num_iter=5 if quick else 7, aa=aa, draw=draw))
+            # a solver OBJECT that has already solved another pair: the second solve must not depend on the first
+            if shape == [2, 2] or not quick:
+                out.append(dict(kind="stopping", shape=shape, method=method, num_iter=3 if quick else 4, aa=0, draw=5, second_call=True))
+    # mass arrays that are not float64 (what images often are): evaluated on the plain import (reference run)
+    for shape in ([[2, 2]] if quick else [[2, 2], [3, 2], [2, 1, 2]]):
+        for method in ("newton", "bregman"):
+            for form in ("full", "pressure"):
+                for dt in ("float32", "int64"):
+                    out.append(dict(kind="dtypes", shape=shape, method=method, form=form, dtype=dt, num_iter=4, aa=0))
     for shape in shapes + ([[1, 2, 2]] if quick else [[2, 2, 2]]):
         for method in ("newton", "bregman"):
             for mode in ("RAVIART_THOMAS", "CONSTANT_SUBCELL_PROJECTION", "CONSTANT_CELL_PROJECTION"):
@@ -85,7 +94,11 @@ def configs(tier):
 def validate_filter(cfg):
     # instrumented runs use arbitrary face weights, the plain import the real mobility: only the
     # self-consistency claims of the "outputs" configurations are comparable between the two
-    return cfg["kind"] in ("outputs", "stopping")
+    return cfg["kind"] in ("outputs", "stopping", "dtypes")
+
+
+def validate_always(cfg):
+    return cfg["kind"] == "dtypes"
 
 
 # stub state (reset per body)
@@ -239,6 +252,8 @@ def body(cfg):
         return body_outputs(cfg, darsia)
     if cfg["kind"] == "stopping":
         return body_stopping(cfg, darsia)
+    if cfg["kind"] == "dtypes":
+        return body_dtypes(cfg, darsia)
     n_it = cfg["num_iter"]
     opts = {"formulation": cfg["form"], "linear_solver": "direct", "num_iter": n_it, "aa_depth": cfg["aa"]}
     if cfg["method"] == "bregman_adaptive":
@@ -331,6 +346,35 @@ def body(cfg):
     S.observe("fired", bool(ST["fired"]))
 
 
+def body_dtypes(cfg, darsia):
+    """float32 / integer mass arrays: the claims are evaluated with concrete data on the plain import only
+    (numeric dtypes do not exist on the symbolic side); the instrumented modes only name them"""
+    names = ("dtype_run_conserves_mass", "dtype_run_distance_is_cost_of_returned_flux", "dtype_run_agrees_with_the_float64_run")
+    if S.instrumented():
+        for nme in names:
+            S.claim(nme, True)
+        return
+    shape = tuple(cfg["shape"])
+    nc = int(np.prod(shape))
+    rng = np.random.default_rng(31)
+    vals = rng.integers(-9, 10, size=nc - 1)
+    f64 = np.array(list(vals) + [-int(vals.sum())], dtype=float)
+    f = f64.astype(cfg["dtype"])
+    opts = {"formulation": cfg["form"], "linear_solver": "direct", "num_iter": cfg["num_iter"], "aa_depth": 0}
+    grid, w1 = _make(darsia, cfg, dict(opts))
+    _, w2 = _make(darsia, cfg, dict(opts))
+    nf = int(grid.num_faces)
+    dist, sol, info = w1._solve(f)
+    dist64, sol64, _ = w2._solve(f64)
+    flux = np.asarray(sol[:nf], dtype=float)
+    mb = w1.div.dot(flux) - w1.mass_matrix_cells.dot(f64)
+    scale = 1.0 + float(np.abs(f64).max())
+    S.claim(names[0], bool(np.abs(mb).max() <= 1e-12 * scale))
+    S.claim(names[1], bool(abs(float(dist) - float(w1.l1_dissipation(flux))) <= 1e-12 * (1 + abs(float(dist)))))
+    tol = 1e-5 if cfg["dtype"] == "float32" else 1e-12
+    S.claim(names[2], bool(abs(float(dist) - float(dist64)) <= tol * (1 + abs(float(dist64))) and np.abs(np.asarray(sol, dtype=float) - np.asarray(sol64, dtype=float)).max() <= tol * (1 + np.abs(np.asarray(sol64, dtype=float)).max())))
+
+
 def body_stopping(cfg, darsia):
     """concrete data, real mobility / cost / shrinkage; symbolic tolerances"""
     from symx.core import ENGINE
@@ -354,10 +398,21 @@ def body_stopping(cfg, darsia):
         opts["bregman_update"] = lambda it: it % 2 == 1
     grid, w1 = _make(darsia, cfg, opts)
     nf = int(grid.num_faces)
+    if cfg.get("second_call"):
+        vals0 = [int(v) for v in rng.integers(-40, 41, size=nc - 1)]
+        f0 = np.zeros(nc, dtype=object if S.instrumented() else float)
+        for i, v in enumerate(vals0):
+            f0[i] = S.const(f"{3 * v}/8")
+        f0[nc - 1] = S.const(f"{-3 * sum(vals0)}/8")
+        w1._solve(f0)  # an earlier, "bigger" pair on the same object
     dist, sol, info = w1._solve(f)
     hist = info["convergence_history"]
     conv = info["converged"]
     n_rec = len(hist["distance"])
+    if cfg.get("second_call"):
+        _, wf = _make(darsia, cfg, dict(opts))
+        dist_f, sol_f, info_f = wf._solve(f)
+        S.claim("second_solve_on_a_used_object_equals_a_fresh_object", S.and_(S.eq(dist, dist_f), S.eq(sol, sol_f), S.iff(conv, info_f["converged"]) if S.symbolic() else bool(conv) == bool(info_f["converged"]), n_rec == len(info_f["convergence_history"]["distance"])))
     S.claim("concolic_distance_is_cost_of_returned_flux", S.eq(dist, w1.l1_dissipation(sol[:nf])))
     if cfg["method"] == "newton":
         crit = S.and_(n_rec > 2, S.lt(hist["residual"][-1], tr * hist["residual"][0]), S.lt(hist["flux_increment"][-1], ti * hist["flux_increment"][0]), S.lt(hist["distance_increment"][-1], td)) if n_rec else S.false()
